@@ -6,6 +6,7 @@
 //!        wfh replay <stream> <op line...>       (re-run one op on the implementation)
 mod codec;
 mod core;
+mod coreops;
 mod funcs;
 mod fgen;
 mod out;
@@ -47,6 +48,21 @@ impl Cfg {
 
 fn main() {
     let args: Vec<String> = std::env::args().collect();
+    if args.len() == 3 && args[1] == "replayfile" {
+        // replay a file of core op lines on the implementation, one answer per line
+        crate::core::silence_panics();
+        let mut core = coreops::Core::new();
+        for line in std::fs::read_to_string(&args[2]).expect("read").lines() {
+            match core.apply(line) {
+                Some(a) => println!("{a}"),
+                None => match streams::replay_any(line) {
+                    Some(a) => println!("{a}"),
+                    None => println!("bad-op"),
+                },
+            }
+        }
+        return;
+    }
     if args.len() >= 3 && args[1] == "replay" {
         let stream = &args[2];
         let op = args[3..].join(" ");
